@@ -28,6 +28,11 @@ def run(ctx):
     Q.rule_space(ctx, "R7s")
     from .c20 import protocol_language
     protocol_language(ctx, "R8")
+    # quoted=True writes the kept query items through safely_quote_qsl, and platform_aware=True sends the url through
+    # canonicalize_url before normalize_url's own steps: both must keep every component's content
+    Q.rule_qsl_mappers(ctx, "R9m")
+    from .c01 import component_flow
+    component_flow(ctx, "R9c")
     import json as _json
     from .c04 import SPEC as _SPEC4
     _spec = _json.load(open(_SPEC4))
@@ -303,6 +308,22 @@ def mistakes_language(ctx, rule):
     except Unsupported as e:
         ctx.undecided(rule, "MISTAKES_RE: %s" % e)
         return
+    # the repair as a function: every spelling of the entity (case, ';' written %3B / %3b -- canonicalize_url unescapes it)
+    # is rewritten wherever it stands, and nothing else is
+    from ..microeval import run_function, Raised
+    fref = ctx.repo.mod("utils").func("fix_common_query_mistakes")
+    ctx.fn(fref.qualname)
+    for text, want in (("a=1&amp;b=2", "a=1&b=2"), ("a=1&AMP;b=2", "a=1&b=2"), ("a=1&amp%3Bb=2", "a=1&b=2"), ("a=1&amp%3bb=2", "a=1&b=2"), ("a=1&Amp%3Bb=2", "a=1&b=2"), ("a=1&amp%3Bb=2&amp;c", "a=1&b=2&c"),
+                       ("&amp;", "&"), ("x&amp%3B", "x&"), ("a=1&amplitude=3", "a=1&amplitude=3"), ("a=1&amp", "a=1&amp"), ("a=1&amp=2", "a=1&amp=2"), ("amp;a=1", "amp;a=1"), ("a=1&b=2", "a=1&b=2"), ("", "")):
+        try:
+            got = run_function(ctx.repo, fref, [text])
+        except Raised as e:
+            got = "raises " + e.name
+        except Unknown as e:
+            ctx.undecided(rule, "fix_common_query_mistakes(%r): %s" % (text, e))
+            continue
+        ctx.ob(rule, "fix_common_query_mistakes/%s" % text, got == want, "fix_common_query_mistakes(%r) gives %r, expected %r: '&amp;' and its spellings '&AMP;' / '&amp%%3B' are one mistake (canonicalize_url turns one into the other)" % (text, got, want),
+               ctx.repo.mod("utils").site(fref.node), witness="http://a.com/?" + text)
     ctx.ob(rule, "MISTAKES_RE/only-terminated-entities", w is None,
            "MISTAKES_RE matches %r, which is not a terminated '&...;' entity: the repair rewrites the start of an ordinary key (?x=1&amplitude=3 -> ?x=1&litude=3)" % w,
            site, witness=w)
